@@ -11,3 +11,5 @@ for c in "$@"; do
   echo "$sid $c rc=$? violations=$(grep -c '^VIOLATION' /tmp/seed/try/$sid.$c.log) loss=$(grep -c '^COVERAGE-LOSS' /tmp/seed/try/$sid.$c.log)"
 done
 git -C /repo checkout -- .
+# the helper binaries were rebuilt from the seeded tree by the checks: rebuild them from the restored tree
+python3-vt -c "import sys; sys.path.insert(0,'/verif'); from checks import common; common.build_mmdump(); common.build_mmdump(debug=True)"
